@@ -171,6 +171,15 @@ PROPS = {
         "trusted_base": TB_POOL, "fingerprints": ["engine:"],
         "assumptions": ["rule bodies reach injected data only through the instance's data context (C03, C15)"],
     },
+    "C07": {
+        "lean": ["GV.Props.C07"],
+        "scenarios": [{"scn": "pool", "filter": "upd", "n": {"quick": 150, "thorough": 2000},
+                       "aspects": ["atomic", "visible", "op", "crash", "iso", "driver", "build"]}],
+        "rule": "pools (1,2) (2,3) (1,3) (2,4), 3-5 rules with distinct saliences, 1-3 full / incremental updates redefining all or some rules with a new version tag; each update is issued either from inside the first rule a request runs or from another goroutine while max requests are parked mid-execution; requests go through ten pool entry points (model-following, sort, concurrent, mix, inverse mix, the three N-M models with n=1, DAG with two layers, selected rules); after every update max further requests; every result map must be the rule set of one installed version inside the window given by the logical clock",
+        "trusted_base": TB_POOL + ["atomicity / visibility oracle: result map = version table computed by the Lean spec, window from the harness's logical clock (comparator)"],
+        "fingerprints": ["engine:", "builder:"],
+        "assumptions": ["Go scheduler fairness"],
+    },
     "C16": {
         "lean": ["GV.Props.C16"],
         "scenarios": [{"scn": "pool", "filter": "mgmt", "n": {"quick": 150, "thorough": 2000},
@@ -182,7 +191,7 @@ PROPS = {
     "C17": {
         "lean": ["GV.Props.C17"],
         "scenarios": [{"scn": "pool", "filter": "cap", "n": {"quick": 120, "thorough": 1500},
-                       "aspects": ["capacity", "exec", "crash", "driver", "build"]}],
+                       "aspects": ["capacity", "double", "exec", "crash", "driver", "build"]}],
         "rule": "max+1 .. max+4 clients on pools (1,2) (2,3) (1,3) (2,4), every rule parks in an injected function, a third of the requests fail (panicking injected function); peak number of requests simultaneously inside their rules, completion of all clients after the gate opens, and a second round of max simultaneous requests",
         "trusted_base": TB_POOL + ["peak concurrency is measured with a settle timeout (0.5 s / 0.8 s): a slower machine can only under-count, reported as correspondence break, never as a violation of at-most-max"],
         "fingerprints": ["engine:"],
@@ -272,6 +281,10 @@ MANIFEST_TEXT["C10"] = {
     "text": "Proof: over the event lists regenerated from the five entry points' sources and the whole (finite) table of front-end outcomes: every error is reported before the installed set is first written (all-or-nothing); every entry point accepts exactly the texts against which lexer, parser and listener report nothing (same language, rejected by one iff by all); a repeated rule name makes the listener record an error (fold lemma over the regenerated duplicate check) and every entry point reject. Differential runs submit mutated texts to all entry points and compare accept vectors and the installed set before/after with model and spec. Partial: that the ANTLR front end returns normally on every byte string is exercised (mutation stream under recover), not proved.",
     "note": "Model = event lists regenerated on every run (T1); front end is a parameter observed through a verif hook; trusted: Lean kernel, extractor, harness, comparator.",
     "technique": "Lean 4 kernel-decided theorems over regenerated entry-point descriptors + list induction for duplicates + differential mutation runs"}
+MANIFEST_TEXT["C07"] = {
+    "text": "Proof: invariant of the updater / request transition system around updateLock (any number of instances, updaters, requests, every interleaving, updates from inside rules included): when no update is in progress every instance's slot holds the master version; hence the container a request takes is one installed version (atomic), at least the version of every update that has returned (visible), and below the version of any update starting later. Premises regenerated from the source on every run and decided by the kernel: prepare* take the container once under updateLock into a request-private builder; no management operation writes into a possibly published container; every management operation holds updateLock throughout. Differential runs: version-tagged rules, updates from inside rules and from other goroutines against parked executions over ten entry points.",
+    "note": "That the engine's execution methods read the container only through the rule builder they are given is by the regenerated orchestration skeletons (C04/C05/C13). Trusted: Lean kernel, extractor, harness clock and comparator; sync.Mutex semantics as modelled.",
+    "technique": "Lean 4 invariant proof over an interleaving transition system + kernel-decided regenerated premises + differential update/execution histories"}
 MANIFEST_TEXT["C16"] = {
     "text": "Proof: refinement of the pool's management operations (full / incremental update, removal, clear, SetExecModel) to the denoted (rule set, cleared, model): every operation keeps the invariant (master and every instance hold well-formed containers denoting the same set), changes the denoted set as specified and answers as specified - so no sequence panics - lifted to every finite history; queries answer from the denoted set; every instance, initial or additional, runs exactly the denoted set in salience order; a cleared pool runs nothing and a full or incremental update brings it back. Differential runs compare every operation, all queries and one execution per instance with model and spec.",
     "note": "Model hand-written over container values; that updates never write into a published container is a regenerated fact (GV.Generated.Pool.inPlaceStores) used by C07. Trusted: Lean kernel, extractor, harness, comparator.",
